@@ -27,7 +27,8 @@ CLAIM = ('The complete decision table of is_optional_start/is_optional_end is co
          "that the predicates approve, and yields the source's own tokens in order. For the parse-equivalence "
          'clause, each omission the table allows is checked against the parser handler that must re-imply the '
          'omitted tag. Every (tag, next token) cell in which a tag is omitted is a position in which the HTML '
-         'syntax allows the omission.')
+         'syntax allows the omission.'
+         " Tokens in the SVG / MathML namespaces are never dropped, and the rules are asked about the stream's own neighbour tokens (helper methods of the filter are inlined).")
 NOT_DECIDED = "full parse equivalence of filtered and unfiltered streams on all conforming documents."
 MODULES = ["filters/optionaltags.py", "html5parser.py", "treebuilders/base.py", "constants.py"]
 
